@@ -2534,7 +2534,7 @@ func (p *Parser) parseSource(subqueries bool) (Source, error) {
 			tok, _, lit = p.ScanIgnoreWhitespace()
 			if tok == AS {
 				if tok, _, lit = p.ScanIgnoreWhitespace(); len(lit) > 0 {
-					return &SubQuery{Statement: stmt, depth: 1 + stmt.Depth()}, nil
+					return &SubQuery{Statement: stmt, Alias: lit, depth: 1 + stmt.Depth()}, nil
 				} else {
 					p.Unscan()
 				}
